@@ -186,7 +186,7 @@ def feasible(pc):
     return s.check() != z3.unsat
 
 
-def prove(pc, goal, timeout_ms=10000):
+def prove(pc, goal, timeout_ms=4000):
     """Returns (status, model_or_reason): status in proved / refuted / unknown."""
     t0 = time.time()
     STATS["queries"] += 1
@@ -598,13 +598,18 @@ class Executor:
         raise Unsupported(f"compare {type(op).__name__} on {a!r}, {b!r}")
 
     def ev_Compare(self, st, e):
-        if len(e.ops) != 1:
-            raise Unsupported("chained comparison")
-        outs, raised = self.ev_list(st, [e.left, e.comparators[0]])
+        # a OP b OP c: every operand evaluated once, left to right (operands here are side-effect free: names, constants,
+        # len() calls), conjunction of the pairwise comparisons
+        outs, raised = self.ev_list(st, [e.left] + list(e.comparators))
         res = []
-        for s, (a, b) in outs:
-            r = self.compare1(s, e.ops[0], a, b)
-            res.append(Path(s, "normal", PyConst(r) if isinstance(r, bool) else r))
+        for s, vals in outs:
+            cs = []
+            for op, a, b in zip(e.ops, vals, vals[1:]):
+                r = self.compare1(s, op, a, b)
+                cs.append(z3.BoolVal(r) if isinstance(r, bool) else r)
+            r = cs[0] if len(cs) == 1 else z3.And(*cs)
+            r = z3.simplify(r)
+            res.append(Path(s, "normal", r))
         return res + raised
 
     def ev_Attribute(self, st, e):
@@ -650,12 +655,41 @@ class Executor:
                     continue
                 except LookupError:
                     pass
+            if is_z3(obj) and z3.is_string(obj) and is_z3(idx) and z3.is_int(idx):
+                # s[i] for 0 <= i < len(s); outside that range Python raises IndexError (negative indexes are not modelled:
+                # the path condition must exclude them, otherwise the IndexError path is reported)
+                inr = z3.And(idx >= 0, idx < z3.Length(obj))
+                for s2, ok in self.branch(s, inr):
+                    if ok:
+                        res.append(Path(s2, "normal", z3.SubString(obj, idx, 1)))
+                    else:
+                        res.append(Path(s2, "raise", ExcVal(PyConst(IndexError), tag="string index")))
+                continue
             raise Unsupported(f"subscript on {obj!r}")
         return res + raised
 
     def ev_Call(self, st, e):
         if any(isinstance(a, ast.Starred) for a in e.args) or any(k.arg is None for k in e.keywords):
             raise Unsupported("star-args in call")
+        if (isinstance(e.func, ast.Attribute) and isinstance(e.func.value, ast.Name) and e.func.attr in ("append", "extend")
+                and len(e.args) == 1 and not e.keywords):
+            fr = st.frame.lookup_frame(e.func.value.id)
+            if fr is not None and isinstance(fr.vars[e.func.value.id], Lst):
+                # list mutation: the list is looked up by name in the state the argument evaluation ends in
+                res = []
+                for p in self.ev(st, e.args[0]):
+                    if p.kind != "normal":
+                        res.append(p)
+                        continue
+                    lst = p.st.frame.lookup_frame(e.func.value.id).vars[e.func.value.id]
+                    if e.func.attr == "append":
+                        lst.items.append(p.val)
+                    elif isinstance(p.val, (Lst, Tup)):
+                        lst.items.extend(p.val.items)
+                    else:
+                        raise Unsupported("extend with a sequence of unknown length")
+                    res.append(Path(p.st, "normal", PyConst(None)))
+                return res
         outs, raised = self.ev_list(st, [e.func] + list(e.args) + [k.value for k in e.keywords])
         res = []
         for s, vals in outs:
@@ -670,6 +704,12 @@ class Executor:
             return r
         if isinstance(f, Closure):
             return self.call_closure(st, f, args, kwargs)
+        if isinstance(f, PyConst) and f.obj is len and len(args) == 1:
+            a = args[0]
+            if is_z3(a) and z3.is_string(a):
+                return [Path(st, "normal", z3.Length(a))]
+            if isinstance(a, (Tup, Lst)):
+                return [Path(st, "normal", z3.IntVal(len(a.items)))]
         target = f.obj if isinstance(f, PyConst) else (f.bound() if isinstance(f, BoundNative) else None)
         if target is not None and self.model.native_ok(target):
             try:
